@@ -160,5 +160,5 @@ DecV(b, maxSize, virt) ==
        IN IF r.c = "OK" THEN r @@ [used |-> lim - 1, rl |-> rl.v] ELSE r
 
 Dec(b, maxSize) == DecV(b, maxSize, 0)
-Must(why) == why \in {"length", "zero-id", "qos3", "utf8", "oversize"}
+Must(why) == why \in {"length", "varint", "zero-id", "qos3", "utf8", "oversize"}
 =============================================================================
